@@ -146,6 +146,9 @@ impl Prop for C19 {
                     let y = y & tmax;
                     if y > cap { x.saturating_sub(1) } else { y }
                 });
+                // the empty sequence has no edited neighbour: use a short fixed one, so that an empty
+                // value is also the source of a clone_from into a non-empty one
+                let nb = if s.is_empty() { Some(vec![1u128, 0, 1, 1]) } else { nb };
                 let mut differs = false;
                 if let Some(s2) = nb {
                     if s2 != s {
@@ -158,6 +161,22 @@ impl Prop for C19 {
                                 if let Some(cf) = vals[0].1.clone_from_into(&t2) {
                                     ensure!(cf.eq_val(&vals[0].1), "{who}: after donor.clone_from(&x) (donor built from a different sequence of {} elements) donor != x", s2.len());
                                     ensure!(digest(&cf, ctx)? == vals[0].2, "{who}: after donor.clone_from(&x) the donor answers the query plan differently from x");
+                                    // nothing of the donor's former content may survive: ask for its symbols
+                                    if let (AnyVal::Seq(tc, _), AnyVal::Seq(tx, _)) = (&cf, &vals[0].1) {
+                                        let mut olds: Vec<u128> = s2.clone();
+                                        olds.sort_unstable();
+                                        olds.dedup();
+                                        for &sym in olds.iter().take(4).chain(olds.iter().rev().take(4)) {
+                                            for i in [0usize, s.len() / 2, s.len(), s2.len()] {
+                                                let (a, b) = (tc.rank(sym, i), tx.rank(sym, i));
+                                                ensure!(a == b, "{who}: after donor.clone_from(&x), donor.rank({sym}, {i}) = {:?} but x.rank = {:?} ({sym} is a symbol of the donor's former content; |x| = {}, |donor| was {})", a, b, s.len(), s2.len());
+                                            }
+                                            for k in [0usize, 1, s2.len()] {
+                                                let (a, b) = (tc.select(sym, k), tx.select(sym, k));
+                                                ensure!(a == b, "{who}: after donor.clone_from(&x), donor.select({sym}, {k}) = {:?} but x.select = {:?} ({sym} is a symbol of the donor's former content; |x| = {}, |donor| was {})", a, b, s.len(), s2.len());
+                                            }
+                                        }
+                                    }
                                     ctx.label("clone_from");
                                 }
                             }
@@ -196,6 +215,7 @@ impl Prop for C19 {
                 paths.push((BvHow::BoolsLoose(lm), WrapHow::New));
                 paths.push((BvHow::PosLoose(lm.wrapping_add(64)), WrapHow::From));
                 paths.push((BvHow::ExtendPieces(lm), WrapHow::New));
+                paths.push((BvHow::ZerosThenSet, WrapHow::From));
                 if matches!(bc.kind, BitsKind::Da0 | BitsKind::Da1 | BitsKind::Bvm) {
                     paths.push((BvHow::BoolsLoose(lm.wrapping_add(128)), WrapHow::Collect));
                     paths.push((BvHow::Bools, WrapHow::Collect));
@@ -240,6 +260,23 @@ impl Prop for C19 {
                         ctx.q();
                     }
                 }
+                // clone_from into destinations of other shapes: much longer, a few words longer
+                // within the same line, and empty
+                {
+                    let mut r = crate::util::Rng::new(bc.plan_seed ^ 0xc10e);
+                    let mut longer = bits.clone();
+                    longer.extend((0..1300 + r.below_usize(900)).map(|_| r.below(3) != 0));
+                    let mut same_line = bits.clone();
+                    same_line.extend(std::iter::repeat(true).take(65 + r.below_usize(120)));
+                    for (what, d) in [("a much longer", longer), ("a slightly longer", same_line), ("an empty", vec![])] {
+                        let donor = AnyVal::Bits(BitsVal::build(bc.kind, BvHow::Bools, WrapHow::New, &d), BitModel::new(d.clone()));
+                        if let Some(cf) = vals[0].1.clone_from_into(&donor) {
+                            ensure!(cf.eq_val(&vals[0].1) && vals[0].1.eq_val(&cf), "{who}: after donor.clone_from(&x) into {what} donor ({} bits, x has {}) donor != x", d.len(), bits.len());
+                            ensure!(digest(&cf, ctx)? == vals[0].2, "{who}: after donor.clone_from(&x) into {what} donor ({} bits, x has {}) the donor answers the query plan differently from x", d.len(), bits.len());
+                            ctx.label("clone_from-other-shape");
+                        }
+                    }
+                }
                 ctx.nontrivial = bits.len() >= 2 && differs;
             }
             AnyCase::Quad(qc) => {
@@ -282,6 +319,21 @@ impl Prop for C19 {
                             }
                         }
                         ctx.q();
+                    }
+                }
+                {
+                    let mut r = crate::util::Rng::new(qc.plan_seed ^ 0xc10e);
+                    let mut longer = q.clone();
+                    longer.extend((0..700 + r.below_usize(900)).map(|_| r.below(4) as u8));
+                    let mut same_line = q.clone();
+                    same_line.extend(std::iter::repeat(3u8).take(33 + r.below_usize(60)));
+                    for (what, d) in [("a much longer", longer), ("a slightly longer", same_line), ("an empty", vec![])] {
+                        let donor = AnyVal::Quad(QuadVal::build(qc.kind, QuadHow::FromQVector(IntTy::U8), &d, 0), QuadModel::new(d.clone()));
+                        if let Some(cf) = vals[0].1.clone_from_into(&donor) {
+                            ensure!(cf.eq_val(&vals[0].1) && vals[0].1.eq_val(&cf), "{who}: after donor.clone_from(&x) into {what} donor ({} symbols, x has {}) donor != x", d.len(), q.len());
+                            ensure!(digest(&cf, ctx)? == vals[0].2, "{who}: after donor.clone_from(&x) into {what} donor ({} symbols, x has {}) the donor answers the query plan differently from x", d.len(), q.len());
+                            ctx.label("clone_from-other-shape");
+                        }
                     }
                 }
                 ctx.nontrivial = q.len() >= 2 && differs;
